@@ -91,6 +91,69 @@ def native_descr(descr):
     return out
 
 
+def _drive(sfile, fn, other, dk, ending, kind, delim, sizes, hk):
+    """write through ONE handle and end it the given way; returns the number of rows the file must hold"""
+    import gc
+    n = 0
+    if kind == "r+existing":
+        sfile.write(fn, chunk(dk, 0, 2), delim=delim, header=HDRS[hk])
+        n = 2
+    mode = "w" if kind == "w" else "r+"
+    state = dict(n=n)
+
+    def writes(sf):
+        for i, k in enumerate(sizes):
+            if i == 0 and kind != "r+existing":
+                sf.write(chunk(dk, state["n"], k), header=HDRS[hk])
+            else:
+                sf.write(chunk(dk, state["n"], k))
+            state["n"] += k
+    if ending == "close":
+        sf = sfile.SFile(fn, mode, delim=delim)
+        writes(sf)
+        sf.close()
+    elif ending == "with":
+        with sfile.SFile(fn, mode, delim=delim) as sf:
+            writes(sf)
+    elif ending == "with-raise":
+        try:
+            with sfile.SFile(fn, mode, delim=delim) as sf:
+                writes(sf)
+                raise KeyError("caller's own error")
+        except KeyError:
+            pass
+    elif ending in ("del", "interpreter-exit"):
+        sf = sfile.SFile(fn, mode, delim=delim)
+        writes(sf)
+        if ending == "del":
+            del sf
+        else:
+            state["keep"] = sf          # stays alive; the caller of _drive is a process that now exits
+    elif ending == "scope":
+        def inner():
+            sf = sfile.SFile(fn, mode, delim=delim)
+            writes(sf)
+        inner()
+    elif ending == "cycle":
+        sf = sfile.SFile(fn, mode, delim=delim)
+        writes(sf)
+        box = [sf]
+        box.append(box)
+        sf._c03_cycle = box
+        del sf, box
+        gc.collect()
+    elif ending == "reopen-other":
+        sf = sfile.SFile(fn, mode, delim=delim)
+        writes(sf)
+        sf.open(other, "w")
+        sf.write(chunk(dk, 0, 1))
+        sf.close()
+    else:
+        raise ValueError(ending)
+    gc.collect()
+    return state
+
+
 def main(ctx):
     from esutil import sfile, recfile
 
@@ -652,6 +715,91 @@ def main(ctx):
     ctx.histories("two-files-world", [()], execute3, depth=ctx.pick(4, 6), nodedup_depth=2,
                   bounds=dict(files=2, dtypes=list(FDK), rows_per_file_max=6,
                               isolation="every history in a forked child with pristine module state"))
+
+    # ------------------------------------------------ how the life of a writing handle ends
+    # The histories above end every handle with close().  Here the END of the handle is the enumerated dimension:
+    # explicit close, with-block, with-block left by an exception, reference dropped (del), handle local to a function
+    # that returns, handle in a reference cycle reclaimed by the collector, handle re-pointed at another file with
+    # .open(), and a handle still alive when the interpreter exits (own python process).  x handle kind ('w' on a new
+    # file, 'r+' on an existing file, 'r+' on a missing file) x delimiter x sizes of the writes through the handle
+    # x header.  After the handle is gone (and, optionally, one more append-by-reopen) the file must hold the
+    # concatenation of everything written and the SIZE line (parsed by hand) the total number of rows.
+    ENDINGS = ["close", "with", "with-raise", "del", "scope", "cycle", "reopen-other", "interpreter-exit"]
+
+    def one_ending(case, rec):
+        ending, kind, delim, sizes, hk, then_append = case
+        dk = "A"
+        fn = os.path.join(rec.tmp, "c03_end.rec")
+        other = os.path.join(rec.tmp, "c03_end_other.rec")
+        for f in (fn, other):
+            if os.path.exists(f):
+                os.unlink(f)
+        try:
+            if ending == "interpreter-exit":
+                import subprocess
+                import sys
+                code = ("import sys; sys.path[:0] = %r\n"
+                        "import mc.checks.c03 as c\n"
+                        "from esutil import sfile\n"
+                        "keep = c._drive(sfile, %r, %r, %r, %r, %r, %r, %r, %r)\n"
+                        % ([p for p in sys.path if p], fn, other, dk, ending, kind, delim, tuple(sizes), hk))
+                p = subprocess.run([sys.executable, "-c", code], capture_output=True, timeout=120)
+                if p.returncode != 0:
+                    return rec.fail(case, "python process that writes and exits ended with status %r: %s"
+                                    % (p.returncode, p.stderr.decode("latin-1")[-300:]))
+                total = (2 if kind == "r+existing" else 0) + sum(sizes)
+            else:
+                total = _drive(sfile, fn, other, dk, ending, kind, delim, sizes, hk)["n"]
+            if then_append:
+                sfile.write(fn, chunk(dk, total, 1), append=True)
+                total += 1
+            with open(fn, "rb") as f:
+                raw = f.read()
+            data, hdr = sfile.read(fn, header=True)
+        except Exception as e:
+            import traceback
+            tb = traceback.extract_tb(e.__traceback__)[-1]
+            return rec.fail(case, "raised %s: %s [at %s:%d]" % (type(e).__name__, str(e)[:200], os.path.basename(tb.filename), tb.lineno))
+        # the SIZE line, parsed by hand
+        first = raw.split(b"\n", 1)[0].decode("latin-1")
+        try:
+            name, val = first.split("=")
+            stored = int(val) if name.strip() == "SIZE" else None
+        except ValueError:
+            stored = None
+        if stored != total:
+            return rec.fail(case, "SIZE line %r after the handle ended by %s, %d rows were written" % (first, ending, total))
+        fdelim = delim
+        exp = chunk(dk, 0, total)
+        if fdelim is not None:
+            exp = exp.astype(native_descr(DTS[dk]))
+        if hdr.get("_SIZE") != total:
+            return rec.fail(case, "_SIZE=%r but %d rows were written" % (hdr.get("_SIZE"), total))
+        msg = T.same_table(data, exp)
+        if msg:
+            return rec.fail(case, "after the handle ended by %s the file is not the concatenation of the writes: %s" % (ending, msg))
+        user = {k: v for k, v in hdr.items() if not k.startswith("_")}
+        if not T.teq(user, HDRS[hk] or {}):
+            return rec.fail(case, "user header %r, given at creation %r" % (user, HDRS[hk]))
+        pos = raw.find(b"\nEND\n\n")
+        body = raw[pos + 6:] if pos >= 0 else None
+        if body is None:
+            return rec.fail(case, "no END line in the file")
+        if fdelim is None and body != chunk(dk, 0, total).tobytes():
+            return rec.fail(case, "bytes after the header are not the concatenation of the chunks (%d bytes, expected %d)"
+                            % (len(body), total * exp.dtype.itemsize))
+        if fdelim is not None and (body.count(b"\n") != total or not body.endswith(b"\n")):
+            return rec.fail(case, "text data section has %d lines, expected %d" % (body.count(b"\n"), total))
+        rec.ok(case, outcome="ending:%s:%s" % (ending, kind), nontrivial=(len(sizes) > 1 or kind != "w"))
+
+    ESIZES = [(1,), (2, 1), (1, 2, 1)]
+    eunits = [(e, kd, dl, sz, hk, ta) for e in ENDINGS for kd in ("w", "r+existing", "r+missing")
+              for dl in [None, ",", "\t", " "] for sz in ESIZES for hk in (0, 1) for ta in (0, 1)
+              # a python process of its own per case: one header, no trailing append (quick: two delimiters, two size lists)
+              if not (e == "interpreter-exit" and (hk == 0 or ta == 1 or (ctx.quick and (dl in ("\t", " ") or sz == (1,)))))]
+    ctx.lattice("handle-endings", eunits, one_ending,
+                bounds=dict(endings=ENDINGS, handles=["w", "r+existing", "r+missing"], delims=["None", ",", "tab", "space"],
+                            write_sizes=[list(s) for s in ESIZES], headers=[0, 1], then_append_by_reopen=[0, 1]))
 
     # ------------------------------------------------ one SFile object used for several files (mc/sfreuse.py)
     from mc.sfreuse import reused_object_world
